@@ -1,9 +1,9 @@
-_CFG = {"small_int_double": {"quick": 1200, "thorough": 60000},
-        "small_short_float": {"quick": 700, "thorough": 30000},
-        "small_ushort_float": {"quick": 300, "thorough": 10000},
-        "medium_int_double": {"quick": 200, "thorough": 8000},
-        "big_int_double": {"quick": 28, "thorough": 800},
-        "big_short_float": {"quick": 8, "thorough": 300}}
+_CFG = {"small_int_double": {"quick": 1200, "thorough": 40000},
+        "small_short_float": {"quick": 700, "thorough": 20000},
+        "small_ushort_float": {"quick": 300, "thorough": 8000},
+        "medium_int_double": {"quick": 200, "thorough": 6000},
+        "big_int_double": {"quick": 28, "thorough": 600},
+        "big_short_float": {"quick": 8, "thorough": 200}}
 _CFG_GCC = {"small_int_double": {"thorough": 10000}, "small_ushort_float": {"thorough": 3000}, "medium_int_double": {"thorough": 1000},
             "big_int_double": {"thorough": 100}}
 _BUILDS = ["flat", "dense", "flat_tbb", "dense_tbb"]
@@ -70,12 +70,12 @@ SPEC = {
                   "case.kind.cross_polytope": 600, "case.kind.rips_int": 400, "case.kind.all_equal": 190, "case.kind.cycle_chords": 180,
                   "case.kind.vertex_driven": 200, "case.kind.sd_moore_z3": 100, "case.kind.sd_rp2": 90,
                   "_distinct_nontrivial": 4400},
-        "thorough": {"case.some_delayed": 100000, "case.some_removed": 150000, "call.total": 350000, "call.some_delayed": 100000,
-                     "call.some_removed": 250000, "edges.delayed": 700000, "edges.removed": 3000000,
-                     "cmp.diagram.z2": 350000, "cmp.diagram.z3": 350000, "case.with_ties": 150000, "case.with_inf_edges": 10000,
-                     "case.torsion_checked": 10000, "case.edges_ge_500": 2000, "bars.finite.dim3": 2500, "case.clique.10": 10000,
+        "thorough": {"case.some_delayed": 70000, "case.some_removed": 120000, "call.total": 300000, "call.some_delayed": 100000,
+                     "call.some_removed": 200000, "edges.delayed": 600000, "edges.removed": 2500000,
+                     "cmp.diagram.z2": 300000, "cmp.diagram.z3": 300000, "case.with_ties": 130000, "case.with_inf_edges": 10000,
+                     "case.torsion_checked": 9000, "case.edges_ge_500": 1400, "bars.finite.dim3": 2500, "case.clique.10": 9000,
                      "call.build.flat_gcc": 10000, "call.build.dense_gcc": 10000,
-                     "_distinct_nontrivial": 150000},
+                     "_distinct_nontrivial": 120000},
     },
     "exhaustive": {"quick": False, "thorough": False},
     "manifest": {
@@ -96,5 +96,5 @@ SPEC = {
 for _b in _BUILDS:
     SPEC["floors"]["quick"]["call.build." + _b] = 2200
     SPEC["floors"]["quick"]["call.edges_ge_500.build." + _b] = 14
-    SPEC["floors"]["thorough"]["call.build." + _b] = 80000
-    SPEC["floors"]["thorough"]["call.edges_ge_500.build." + _b] = 400
+    SPEC["floors"]["thorough"]["call.build." + _b] = 60000
+    SPEC["floors"]["thorough"]["call.edges_ge_500.build." + _b] = 300
